@@ -25,6 +25,7 @@ import json
 import os
 import re
 import shutil
+import sys
 import tempfile
 
 from common import VERIF, NCPU, coq_list, coq_N
@@ -168,6 +169,29 @@ class Abort(Exception):
     pass
 
 
+SPELLINGS = ['abs', 'slash', 'dot', 'dotdot', 'rel', 'syspath']
+
+
+def spell_root(root, spelling):
+    """(sources, extra sys.path entry): the same directory named the way a user may name it. supp joins the
+    root as given with the module path, so cached file names carry the spelling."""
+    d, b = os.path.split(root)
+    if spelling == 'abs':
+        return [root], None
+    if spelling == 'slash':
+        return [root + os.sep], None
+    if spelling == 'dot':
+        return [os.path.join(d, '.', b)], None
+    if spelling == 'dotdot':
+        return [os.path.join(root, os.pardir, b)], None
+    if spelling == 'rel':
+        return [os.path.relpath(root)], None
+    if spelling == 'syspath':
+        # the modules are found on sys.path, outside the project's sources
+        return [tempfile.mkdtemp(prefix='c09empty_', dir=d)], root
+    raise ValueError(spelling)
+
+
 class RawApi(object):
     """the three entry points of server.py without their check_changes wrapper (used inside an explicit
     `with project.check_changes():` that is then left by an exception)"""
@@ -193,7 +217,7 @@ class Runner(object):
     against a brand-new one.  All requests go through supp.server.Server methods, i.e. exactly the
     `with self.project.check_changes():` wrapper of server.py."""
 
-    def __init__(self, token, packages=(), rel_ok=False, base=None, root=None):
+    def __init__(self, token, packages=(), rel_ok=False, base=None, root=None, spelling='abs'):
         from supp.server import Server
         from supp.project import Project
         self.Server, self.Project = Server, Project
@@ -216,16 +240,35 @@ class Runner(object):
                         self.files[os.path.join(dp, fn)] = tuple(codes)
         else:
             self.root = tempfile.mkdtemp(prefix='c09_', dir=base)
+        self.root = os.path.realpath(self.root)
+        self.files = dict((os.path.realpath(k), v) for k, v in self.files.items())
+        self.spelling = spelling
+        self.sources, self.extra_path = spell_root(self.root, spelling)
+        if self.extra_path:
+            sys.path.append(self.extra_path)
         self.long = self.new_server()
         self.mainfile = os.path.join(self.root, self.nm.token + MAIN + '.py')
 
     def new_server(self):
         s = self.Server(None)
-        s.project = self.Project([self.root])
+        s.project = self.Project(list(self.sources))
         return s
 
     def close(self):
+        if self.extra_path and self.extra_path in sys.path:
+            sys.path.remove(self.extra_path)
         shutil.rmtree(self.root, ignore_errors=True)
+        if self.extra_path:
+            shutil.rmtree(self.sources[0], ignore_errors=True)
+
+    def main_for(self, r):
+        """file name of the buffer a request is made from: the top-level main file, or (4th element of a
+        main request = a package) a buffer inside that package, whose text then uses relative imports"""
+        where = r[3] if r[0] == 'main' and len(r) > 3 else None
+        if where:
+            return os.path.join(os.path.dirname(self.nm.modfile(self.root, where, self.packages)),
+                                self.nm.token + MAIN + '.py'), list(where) + [0]
+        return self.mainfile, None
 
     def tick(self, fn):
         # a modification time this file never had before; not monotone on purpose (a restored or
@@ -239,7 +282,7 @@ class Runner(object):
         os.makedirs(os.path.dirname(fn), exist_ok=True)
         with open(fn, 'w') as f:
             f.write(render_content(c, self.nm, here=m, rel_ok=self.rel_ok and tuple(m[:1]) in self.packages))
-        self.files[fn] = tuple(m)
+        self.files[os.path.realpath(fn)] = tuple(m)
         self.tick(fn)
 
     def touch(self, m):
@@ -263,8 +306,8 @@ class Runner(object):
             if isinstance(l, list):
                 out.append(('multi', repr(l)))
                 continue
-            fn = l['file']
-            if fn == self.mainfile:
+            fn = os.path.realpath(l['file']) if l['file'] else l['file']
+            if fn == self.mainfile or (fn and os.path.basename(fn) == self.nm.token + MAIN + '.py'):
                 continue
             m = self.files.get(fn)
             line = l['loc'][0]
@@ -289,25 +332,26 @@ class Runner(object):
                 locs = server.location(src, [src.count('\n'), len(tail)], self.mainfile)
                 return ['loc', self.canon_loc(locs)]
             c, q = r[1], r[2]
-            src = render_content(c, nm)
+            mainfile, here = self.main_for(r)
+            src = render_content(c, nm, here=here, rel_ok=here is not None)
             ln = src.count('\n') + 1
             if q[0] == 'names':
-                _p, names = server.assist(src, [ln, 0], self.mainfile)
+                _p, names = server.assist(src, [ln, 0], mainfile)
                 return ['names', self.canon_names(names)]
             if q[0] == 'lint':
                 src += 'print(%s)\n' % ', '.join(nm.ident(u) for u in q[1])
-                res = server.lint(src, self.mainfile)
+                res = server.lint(src, mainfile)
                 und = [x[1].split(': ')[1] for x in res if x[0] == 'E02']
                 return ['names', self.canon_names(und)]
             if q[0] == 'attrs':
                 tail = nm.ident(q[1]) + '.' + (nm.ident(q[2]) + '.' if q[2] is not None else '')
                 src += tail
-                _p, names = server.assist(src, [ln, len(tail)], self.mainfile)
+                _p, names = server.assist(src, [ln, len(tail)], mainfile)
                 return ['names', self.canon_names(names)]
             if q[0] == 'loc':
                 tail = nm.ident(q[1])
                 src += tail + '\n'
-                locs = server.location(src, [ln, len(tail)], self.mainfile)
+                locs = server.location(src, [ln, len(tail)], mainfile)
                 return ['loc', self.canon_loc(locs)]
             raise ValueError(q)
         except ImportError:
@@ -351,7 +395,8 @@ common.ensure_repo_on_path()
 logging.getLogger('supp').setLevel(logging.CRITICAL)
 from props import c09
 root, token, packages, req = sys.argv[2], sys.argv[3], json.loads(sys.argv[4]), json.loads(sys.argv[5])
-r = c09.Runner(token, packages=packages, root=root)
+r = c09.Runner(token, packages=packages, root=root, spelling=sys.argv[6])
+r.close = lambda: None
 print(json.dumps(r.ask(r.long, req)))
 """
 
@@ -360,7 +405,8 @@ def ask_new_process(runner, req):
     """the same request answered by a new Project in a new interpreter (nothing can have survived)"""
     from common import run_py
     rc, out, err = run_py(ORACLE_CODE, [os.path.join(VERIF, 'harness'), runner.root, runner.nm.token,
-                                        json.dumps(sorted(map(list, runner.packages))), json.dumps(req)], timeout=120)
+                                        json.dumps(sorted(map(list, runner.packages))), json.dumps(req),
+                                        runner.spelling if runner.spelling != 'syspath' else 'abs'], timeout=120)
     if rc != 0:
         raise RuntimeError('oracle process failed: ' + err[-500:])
     return json.loads(out.strip().split('\n')[-1])
@@ -368,7 +414,8 @@ def ask_new_process(runner, req):
 
 def run_history_new_process(ctx, h, token):
     """long-lived answers vs answers of a new interpreter, request by request (slow: failure path only)"""
-    r = Runner(token, packages=h.get('packages', ()), rel_ok=h.get('rel_ok', False), base=ctx.scratch)
+    r = Runner(token, packages=h.get('packages', ()), rel_ok=h.get('rel_ok', False), base=ctx.scratch,
+               spelling=h.get('spelling', 'abs'))
     la, pa = [], []
     try:
         for o in h['ops']:
@@ -548,6 +595,16 @@ def gen_request(rng, mods, cur):
 
 
 def gen_history(rng, maxlen):
+    h = gen_history0(rng, maxlen)
+    h['spelling'] = rng.choice(SPELLINGS)
+    for o in h['ops']:
+        # a third of the main requests are made from a buffer inside a package (relative imports)
+        if is_req(o) and o[1][0] == 'main' and h['packages'] and rng.random() < 0.35:
+            o[1] = o[1][:3] + [rng.choice(h['packages'])]
+    return h
+
+
+def gen_history0(rng, maxlen):
     mods, packages = gen_universe(rng)
     ops = []
     cur = {}
@@ -629,6 +686,35 @@ RAW_SCENARIOS = [
      'edits': [('@p/s.py', 'class S:\n    s2 = 1\n_hidden = 1\nvisible2 = 3\n'),
                ('@p/t.py', 'class T:\n    t1 = 1\n'),
                ('@p/__init__.py', 'from .s import S, _hidden\nfrom . import t\n')]},
+    # relative imports of one to three levels from buffers in several directories: inside a package, inside a
+    # sub-package, in a second package, next to the packages (no parent package), beyond the top-level
+    # package. No edit is needed: the answer must not depend on which requests were served before
+    # (Project._norm_cache is keyed by directory).
+    {'name': 'relative-imports-from-several-directories', 'order_only': True,
+     'files': {'@pkg/__init__.py': '', '@pkg/a.py': 'class X:\n    from_pkg = 1\n',
+               '@pkg/sub/__init__.py': '', '@pkg/sub/a.py': 'class X:\n    from_sub = 1\n',
+               '@other/__init__.py': '', '@other/a.py': 'class X:\n    from_other = 1\n'},
+     'requests': [('assist', 'from .a import X\nX.', '@pkg/b.py'),
+                  ('assist', 'from .a import X\nX.', '@main.py'),
+                  ('assist', 'from ..a import X\nX.', '@pkg/c.py'),
+                  ('assist', 'from ..a import X\nX.', '@pkg/sub/e.py'),
+                  ('assist', 'from .a import X\nX.', '@pkg/sub/e.py'),
+                  ('assist', 'from .a import X\nX.', '@other/z.py'),
+                  ('lint', 'from .a import *\nprint(X)\n', '@main.py'),
+                  ('location', 'from ...a import X\nX', '@pkg/sub/e.py')],
+     'edits': [('@pkg/a.py', 'class X:\n    from_pkg2 = 1\n'), ('@other/a.py', None)]},
+    # the __init__.py of an ENCLOSING directory is created after relative imports below it were normalised:
+    # pkg/sub is a package whose parent pkg is not one yet; dir/x.py does a relative import in a directory
+    # that is not a package yet (module creation is inside the property; removing __init__.py is not).
+    # Unfixed on the pinned tree = finding F70 (Project._norm_cache is never re-validated).
+    {'name': 'enclosing-package-created-later', 'finding': 'F70', 'finding_edits': (0, 1),
+     'files': {'@pkg/sub/__init__.py': '', '@pkg/sub/a.py': 'class X:\n    attr = 1\n',
+               '@dir/x.py': 'from .y import Z\n', '@dir/y.py': 'class Z:\n    zattr = 1\n'},
+     'requests': [('assist', 'from .a import X\nX.', '@pkg/sub/e.py'),
+                  ('assist', 'import @dir.x\n@dir.x.Z.', '@main.py'),
+                  ('assist', 'from . import a\na.X.', '@pkg/sub/e.py'),
+                  ('assist', 'import @pkg.sub.a\n@pkg.sub.a.X.', '@main.py')],
+     'edits': [('@pkg/__init__.py', ''), ('@dir/__init__.py', ''), ('@pkg/sub/a.py', None)]},
 ]
 
 
@@ -655,9 +741,9 @@ def run_raw(base, token, sc, seq):
         s.project = Project([root])
         return s
 
-    def ask(srv, kind, src):
+    def ask(srv, kind, src, relfile='@main.py'):
         src = src.replace('@', token)
-        main = os.path.join(root, token + 'main.py')
+        main = os.path.join(root, relfile.replace('@', token))
         lines = src.split('\n')
         pos = [len(lines), len(lines[-1])]
         try:
@@ -686,6 +772,14 @@ def run_raw(base, token, sc, seq):
         shutil.rmtree(root, ignore_errors=True)
 
 
+def fixed_status(ctx, fid):
+    """status of a finding in known_findings.json ('fixed' / 'open' / None when not listed yet)"""
+    for f in ctx.findings:
+        if f.get('id') == fid:
+            return f.get('status')
+    return None
+
+
 def _raw_worker(args):
     base, token, si, seq = args
     return run_raw(base, token, RAW_SCENARIOS[si], seq)
@@ -697,8 +791,16 @@ def raw_jobs(ctx, token, maxlen):
         alphabet = list(range(len(sc['requests']))) + [-1 - k for k in range(len(sc['edits']))]
         for n in range(2, maxlen + 1):
             for seq in itertools.product(alphabet, repeat=n):
-                if seq[-1] >= 0 and any(k < 0 for k in seq):
-                    jobs.append((ctx.scratch, token, si, list(seq)))
+                if seq[-1] < 0:
+                    continue
+                edits = any(k < 0 for k in seq)
+                if sc.get('order_only'):
+                    # request order alone matters here; quick: edits only in the short sequences
+                    if edits and n > 2 and not ctx.thorough():
+                        continue
+                elif not edits:
+                    continue
+                jobs.append((ctx.scratch, token, si, list(seq)))
     return jobs
 
 # --------------------------------------------------------------------------------------------
@@ -756,7 +858,8 @@ def case_term(h, la, fa):
 
 def run_history(ctx, h, token):
     base = ctx if isinstance(ctx, str) else ctx.scratch
-    r = Runner(token, packages=h.get('packages', ()), rel_ok=h.get('rel_ok', False), base=base)
+    r = Runner(token, packages=h.get('packages', ()), rel_ok=h.get('rel_ok', False), base=base,
+               spelling=h.get('spelling', 'abs'))
     try:
         la, fa = r.run(h['ops'])
         cached = cached_modules(r.long)
@@ -821,7 +924,8 @@ def run(ctx):
             if fn.endswith('.json'):
                 obj = json.load(open(os.path.join(cdir, fn)))
                 obj['origin'] = 'corpus/' + fn
-                histories.append(obj)
+                for sp in ([obj['spelling']] if 'spelling' in obj else SPELLINGS):
+                    histories.append(dict(obj, spelling=sp))      # every corpus history under every root spelling
     ncorpus = len(histories)
 
     setup, alphabet = exhaustive_alphabet()
@@ -831,7 +935,7 @@ def run(ctx):
             if not is_req(seq[-1]):
                 continue      # nothing is observed after the last edit: same as the shorter sequence
             histories.append({'ops': setup + list(seq), 'packages': [P], 'rel_ok': False, 'origin': 'exhaustive',
-                              'ranks': EXH_RANKS})
+                              'ranks': EXH_RANKS, 'spelling': SPELLINGS[len(histories) % len(SPELLINGS)]})
     nexh = len(histories) - ncorpus
 
     for i in range(ctx.pick(250, 2500)):
@@ -846,9 +950,10 @@ def run(ctx):
     unrepresentable = []
     for h, (la, fa, cached) in zip(histories, run_all(ctx, histories, token)):
         nreq = len(la)
-        key = json.dumps(h['ops'])
+        key = json.dumps([h['ops'], h.get('spelling')])
         ctx.count(key, nontrivial=is_nontrivial(h['ops']))
         ctx.histogram('origin', h['origin'].split('/')[0])
+        ctx.histogram('root_spelling', h.get('spelling', 'abs'))
         ctx.histogram('requests_per_history', min(nreq, 20))
         for o in h['ops']:
             if is_req(o):
@@ -889,13 +994,25 @@ def run(ctx):
     rjobs = raw_jobs(ctx, token, ctx.pick(3, 4))
     with multiprocessing.get_context('fork').Pool(max(1, min(NCPU // 2, 8))) as pool:
         rres = pool.map(_raw_worker, rjobs, chunksize=16)
-    nraw_bad = 0
+    nraw_bad = nfinding = 0
     for (_b, _t, si, seq), (la, fa) in zip(rjobs, rres):
         ctx.count(('raw', si, tuple(seq)), nontrivial=True)
         ctx.histogram('origin', 'raw:' + RAW_SCENARIOS[si]['name'])
         for a in la:
             ctx.histogram('answer_kind', 'raw-' + a[0])
         i = first_difference(la, fa)
+        sc = RAW_SCENARIOS[si]
+        if i is not None and sc.get('finding') and fixed_status(ctx, sc['finding']) != 'fixed':
+            # attributed to the finding only if an enclosing __init__.py was created after a request
+            # (the signature of the finding); anything else in this scenario is reported as usual
+            first_req = min([k for k, x in enumerate(seq) if x >= 0] or [len(seq)])
+            if any(x < 0 and (-1 - x) in sc['finding_edits'] and k > first_req for k, x in enumerate(seq)):
+                nfinding += 1
+                if seq == [0, -1, 0]:
+                    ctx.known_finding(sc['finding'], 'after `from .a import X` was resolved in pkg/sub (pkg not a package yet), '
+                                      'creating pkg/__init__.py is not noticed: long-lived %r, fresh %r (Project._norm_cache '
+                                      'is never re-validated; fixes/F70_norm_cache_not_revalidated.patch)' % (la[i], fa[i]))
+                continue
         if i is not None:
             nraw_bad += 1
             if nraw_bad <= 2:
@@ -904,6 +1021,7 @@ def run(ctx):
                               {'kind': 'direct-raw', 'scenario': si, 'seq': seq, 'long': la, 'fresh': fa})
     cov['raw_histories'] = len(rjobs)
     cov['raw_direct_disagreements'] = nraw_bad
+    cov['raw_histories_attributed_to_open_findings'] = nfinding
     ctx.log('raw scenarios: %d histories, %d disagreements' % (len(rjobs), nraw_bad))
 
     # ---- (I)/(R): the model evaluated inside Coq on the same histories ------------------------------
